@@ -104,6 +104,7 @@ class World(DuoWorld):
             self.model = {"orig": {"": "ko"}, "resp": {"": "other"}}
         self.rings = {"orig": ring_o, "resp": ring_r}
         self.rekeys_left = 0 if (flip or layout == "split-roles") else ch.choose(4, "nrekeys", (4, 2, 1, 1))
+        self.resp_originates_left = 0 if flip else ch.choose(3, "n-resp-originates", (3, 1, 1))
         orig = fwamp.ApplicationSession(ComponentConfig(realm="realm1"))
         resp = fwamp.ApplicationSession(ComponentConfig(realm="realm1"))
         orig.set_payload_codec(ring_o)
@@ -199,11 +200,32 @@ class World(DuoWorld):
             acts.append((3.0, "originate", self.originate))
         if self.rekeys_left > 0 and self.ops:
             acts.append((1.5, "rekey", self.rekey))
+        if self.resp_originates_left > 0:
+            acts.append((1.0, "responder-originates", self.responder_originates))
         if self.unread(self.o) or self.unread(self.r):
             acts.append((4.0, "router-collect", self.collect))
         if self.queue:
             acts.append((4.0, "router-forward", self.forward))
         return acts
+
+    def responder_originates(self):
+        """The responder session is itself an originator on the same URIs now and then (a session is rarely only
+        one or the other): with a responder-only key that travels in clear by design - and must not change what the
+        session can decrypt afterwards."""
+        from autobahn.wamp import types
+        self.resp_originates_left -= 1
+        uri = self.run.ch.pick(self.topics + self.procs, "resp-uri")
+        self.run.probe("responder-originates")
+        self.run.log("app", "responder originates on", uri)
+        try:
+            if uri in self.topics:
+                self.call(lambda: self.r.session.publish(uri, "from-responder", options=types.PublishOptions(acknowledge=False)))
+            else:
+                f = self.call(self.r.session.call, uri, "from-responder")
+                self.fw.watch(f)  # (never answered: the scripted router ignores it; failed at the end of the run)
+        except Exception as e:  # noqa
+            self.run.log("responder-originate-raised", type(e).__name__)
+        self.settle()
 
     def originate(self):
         ch = self.run.ch
@@ -272,6 +294,8 @@ class World(DuoWorld):
         side = self.o if self.unread(self.o) else self.r
         msg = side.inbox[side.cursor]
         side.cursor += 1
+        if side is self.r and isinstance(msg, (M.Publish, M.Call)):
+            return  # traffic originated by the responder session itself: not routed
         if isinstance(msg, M.Publish):
             op = self.by_tok_from_order("publish", msg)
             if op is None:
